@@ -801,6 +801,17 @@ def rule_formatsafe(ctx, rule, files):
             for ch in ast.iter_child_nodes(node):
                 parents[ch] = node
 
+        def table_entry(v):
+            """X[...] (any depth) of a module-level display that contains no interpolated text"""
+            while isinstance(v, ast.Subscript):
+                v = v.value
+            if not isinstance(v, ast.Name):
+                return False
+            node = mod.const_nodes.get(v.id)
+            if not isinstance(node, (ast.Dict, ast.Tuple, ast.List)):
+                return False
+            return not any(isinstance(x, (ast.JoinedStr, ast.BinOp)) and not (isinstance(x, ast.BinOp) and isinstance(x.op, ast.Add)) for x in ast.walk(node))
+
         def literal(e, fn, depth=0):
             if depth > 4:
                 return False
@@ -816,9 +827,11 @@ def rule_formatsafe(ctx, rule, files):
                     if e.id in params:
                         return False
                     assigns = [x for x in ast.walk(fn) if isinstance(x, ast.Assign) and any(isinstance(t, ast.Name) and t.id == e.id for t in x.targets)]
+                    unpacks = [x for x in ast.walk(fn) if isinstance(x, ast.Assign) and any(isinstance(t, (ast.Tuple, ast.List)) and any(isinstance(z, ast.Name) and z.id == e.id for z in t.elts) for t in x.targets)]
                     others = [x for x in ast.walk(fn) if isinstance(x, ast.Name) and x.id == e.id and isinstance(x.ctx, ast.Store)]
-                    if assigns:
-                        return len(others) == len(assigns) and all(literal(a.value, fn, depth + 1) for a in assigns)
+                    if assigns or unpacks:
+                        # a local that is only ever bound to a literal, or to an entry of a module-level table of literals
+                        return len(others) == len(assigns) + len(unpacks) and all(literal(a.value, fn, depth + 1) or table_entry(a.value) for a in assigns) and all(table_entry(a.value) for a in unpacks)
                     if others:
                         return False
                 node = mod.const_nodes.get(e.id)
